@@ -122,6 +122,13 @@ class H(semh.Base):
             _, ptypes, ret = self.task
             ps = " , ".join(f"{t} a{i}" for i, t in enumerate(ptypes))
             return T(f"def f ( {ps} ) {'-> ' + ret + ' ' if ret else ''}{{ }}".replace("->", "-~ >"))
+        if k == "defparam":     # def f(T[W] a0) { }  /  for T[W] a0 in [0:1] { }  : parameter and loop-variable symbols carry the written type
+            _, ty, nd, form = self.task
+            cs, w = self.sym_digits(ex, "w", nd)
+            self.want_w = w
+            if form == "def":
+                return T(f"def f ( {ty} [ $w ] a0 ) {{ }}", {"w": ("INT_NUMBER", cs)})
+            return T(f"for {ty} [ $w ] a0 in [ 0 : 1 ] {{ }}", {"w": ("INT_NUMBER", cs)})
         if k == "defret":       # const int n = V; def f(..) -> T[n] { [const int n = 4;] }  : the designator is resolved where the def is written
             _, ty, nd, shadow = self.task
             cs, w = self.sym_digits(ex, "v", nd)
@@ -220,6 +227,18 @@ class H(semh.Base):
                 if qt.v != "Qubit":
                     raise Violation(f"gate qubit q{i} recorded as {qt!r}")
             return "gate"
+        if k == "defparam":
+            _, ty, nd, form = self.task
+            t = sym("a0")
+            shown = repr(t)
+            if not errs:
+                ok, cond = type_matches(t, TY[ty], self.want_w, False)
+                ok2, cond2 = type_matches(t, TY[ty], self.want_w, True)
+                if not (ok or ok2):
+                    raise Violation(f"`{self.label()}`: the {form} variable is recorded as {shown}, declared {ty}[W]")
+                ex.prove(cond if ok else cond2, f"`{self.label()}`: no diagnostic, but the recorded width {shown} of the {form} variable is not the number written", {"t": shown})
+            ex.prove(z3.ULE(self.want_w, U32) if not errs else z3.BoolVal(True), f"`{self.label()}`: a width above 2^32-1 is accepted without diagnostic (recorded {shown})")
+            return "defparam"
         if k == "defret":
             _, ty, nd, shadow = self.task
             t = sym("f")
@@ -347,6 +366,12 @@ def build_tasks(quick):
         for shadow in ("none", "body", "param"):
             for nd in (1, 2):
                 tasks.append(("defret", ty, nd, shadow))
+    for ty in ("int", "uint", "bit") if quick else WIDTH_TYPES:
+        for form in ("def", "for"):
+            if form == "for" and ty == "bit":
+                continue
+            for nd in (2, 10):
+                tasks.append(("defparam", ty, nd, form))
     tasks.append(("listing", 2, 3))
     tasks.append(("listing", 0, 1))
     return tasks
